@@ -156,6 +156,30 @@ def uclchem_upper(v: List[int]) -> bool:
         return _agree(sp, ec, q, bool(pref), f"{r(s1)}{c1}{r(s2)}{ch}") and sp.name == renamed
 
 
+def upper_case_elements_with_G_prefix(v: List[int]) -> bool:
+    """
+    pre: len(v) == 3 and all(0 <= x < 11 for x in v)
+    post: _ == True
+    """
+    # the Leeds ice prefix 'G' together with an upper-case element list: 'MG' contains the prefix letter
+    a, b, c = prelude.concrete(v)
+    with prelude.NoTracing():
+        _setup(UCL, UCL_PSEUDO + ["M"], UCL_REPL)
+        real = [e for e in UCL if e != "E"]
+        s1, s2 = real[a % 10], (real + [""])[b]
+        c1, ch = COUNTS[c % 4], CHARGES[(c // 4) % 2]
+        pref = "G" if (a + b + c) % 2 else ""
+        name = f"{pref}{s1}{c1}{s2}{ch}"
+        r = lambda s_: UCL_REPL.get(s_, s_)
+        ec, q = _expected([(r(s1), c1), (r(s2), "")], ch)
+        try:
+            sp = Species(name, surface_prefix="G")
+        except Exception:
+            return False
+        renamed = f"{pref}{r(s1)}{c1}{r(s2)}{ch}"
+        return _agree(sp, ec, q, bool(pref), f"{r(s1)}{c1}{r(s2)}{ch}") and sp.name == renamed
+
+
 def electrons_and_grains(v: List[int]) -> bool:
     """
     pre: len(v) == 2 and all(0 <= x < 12 for x in v)
